@@ -33,6 +33,10 @@ def shards(tier, seed):
             sh.append(dict(stratum=f'sig(d) d<=3: {kind}', cfg=c, kind=kind, size=2 if tier == 'quick' else 3, big=False))
     for c in [spaces.cfg_pqr(4, 0, 0), spaces.cfg_pqr(3, 0, 1), spaces.cfg_pqr(3, 1, 0)] + ([spaces.cfg_pqr(5, 0, 0), spaces.cfg_pqr(4, 0, 1)] if tier == 'thorough' else []):
         sh.append(dict(stratum='d=4,5: integer powers of blades, non-simple bivectors and mixed elements', cfg=c, kind='pow', size=1, big=True, powpats=True))
+    # d=4: mixed-grade operands whose even part is a non-simple bivector (outer sine and cosine do not commute there)
+    for c in [spaces.cfg_pqr(4, 0, 0), spaces.cfg_pqr(3, 0, 1), spaces.cfg_pqr(3, 1, 0)]:
+        sh.append(dict(stratum='d=4: outer functions of non-simple bivector + vector / trivector', cfg=c, kind='outer', size=1, big=True,
+                       only_pats=[[3, 12, 7], [3, 12, 1], [3, 12, 7, 8], [5, 10, 14, 2]]))
     if tier == 'thorough':
         big = [spaces.cfg_sig(s) for s in spaces.sig(4)[::3]] + [spaces.cfg_pqr(*t) for t in spaces.pqr(5)[::3]] + [spaces.cfg_pqr(*t) for t in [(6, 0, 0), (5, 0, 1), (4, 1, 1)]]
         for c in big:
@@ -102,7 +106,10 @@ def run_shard(shard):
             # and vector+bivector only
             c_ = tuple(alg.canon2bin.values())
             G = [tuple(k for k in c_ if spaces.grade_of(k) in gs) for gs in ((1,), (2,), (3,), (1, 2), (alg.d - 1,))]
-        for keys in list(dict.fromkeys([p for p in pats if 0 not in p] + G)):
+        todo = list(dict.fromkeys([p for p in pats if 0 not in p] + G))
+        if shard.get('only_pats'):
+            todo = [tuple(p) for p in shard['only_pats']]
+        for keys in todo:
             x = gmv(alg, keys, 'x')
             rx = mv_to_ref(alg, ref, x)
             for fn in ('outerexp', 'outersin', 'outercos'):
